@@ -79,7 +79,7 @@ def main(pid=PID):
                        'reference grammar in checks/refparser.py (README + property text)',
                        'regex engine modelled by its contract: captures_iter yields matches, each with exactly one named group set whose text is in that group\'s language']
     rep.assumptions.append('regex semantics for the pattern unit (checks/regexcore.py): leftmost-first alternation, greedy/lazy repetition with backtracking, `$`, classes; the iterator resumes at the end of a non-empty match; characters abstracted into %d classes the pattern cannot split' % len(regexcore.ALPHA))
-    rep.bounds['pattern_text'] = 'TOKENIZER pattern read from src/parser.rs, executed symbolically on every text of <= %d characters (unknown length) over %d character classes' % (6 if quick else 8, len(regexcore.ALPHA))
+    rep.bounds['pattern_text'] = 'TOKENIZER pattern read from src/parser.rs, executed symbolically on every text of <= %d characters (unknown length) over %d character classes' % (8 if quick else 12, len(regexcore.ALPHA))
     rep.uncovered = ['the regex crate\'s implementation itself (the pattern is executed under the documented leftmost-first semantics, not through the crate\'s code); texts longer than the pattern-unit bound; a second regex or text rewriting before matching leaves the modelled fragment (inconclusive, not passed)',
                      'token sequences longer than the bound', 'random / mutated longer texts']
     return rep
